@@ -703,6 +703,22 @@ theorem visitModule_renameAt (S : List Nat) (new this : α) (m : Module α)
     have := visitToplevel_renameAt S new this t (ht t htm)
     simpa [renameAt] using this
 
+/-! ### renaming changes names only -/
+
+mutual
+theorem renameAt_erase (S : List Nat) (new : α) :
+    ∀ n : Node α, Node.map (fun _ => ()) (Node.renameAt S new n) = Node.map (fun _ => ()) n
+  | .mk tag name loc kids => by
+    have hk := renameAtList_erase S new kids
+    by_cases hS : loc ∈ S <;> cases name <;> simp [Node.renameAt, Node.map, hS, hk]
+theorem renameAtList_erase (S : List Nat) (new : α) :
+    ∀ ks : List (Node α),
+      Node.mapList (fun _ => ()) (Node.renameAtList S new ks) = Node.mapList (fun _ => ()) ks
+  | [] => by simp [Node.renameAtList, Node.mapList]
+  | k :: ks => by
+    simp [Node.renameAtList, Node.mapList, renameAt_erase S new k, renameAtList_erase S new ks]
+end
+
 theorem rinv_init (d : Nat) (old new : α) : RInv d old new (init : St α) :=
   ⟨by simp [init], by simp [init], by simp [init, ctxNames, names], by simp [init], by simp [init, CapInv]⟩
 
